@@ -62,7 +62,7 @@ CONFIG = {
 }
 
 TOTALS = {
-    "quick": {"prefix_docs": 96, "max_len": 400, "valid": 1200, "edit": 6400, "soup": 4800},
+    "quick": {"prefix_docs": 96, "max_len": 400, "valid": 1200, "edit": 6400, "soup": 8000},
     "thorough": {"prefix_docs": 320, "max_len": 800, "valid": 12000, "edit": 60000, "soup": 30000,
                  "atheris_runs": 160000},
 }
@@ -664,7 +664,8 @@ def soup_cases():
                                    "kwargs": st.just({}), "matrix_type": st.none()})
     plain2 = st.fixed_dictionaries({"text": docs.plain_newick_mutants(), "schema": st.just("newick"),
                                     "kwargs": st.just({}), "matrix_type": st.none()})
-    return st.one_of(one("newick"), plain, plain2, plain2, one("nexus"), one("nexus"), stmt, stmt, stmt, one("phylip"), one("fasta"))
+    return st.one_of(one("newick"), plain, plain2, plain2, one("nexus"), one("nexus"), stmt, stmt, stmt, stmt, stmt, one("phylip"),
+                     one("fasta"))
 
 
 DEEP_DEPTHS = (10, 100, 900, 2500, 3500, 6000)
